@@ -37,7 +37,10 @@ def cases(tier, sd):
 TENSOR_SETS = [['gxx', 'gxy', 'gxz', 'gyy', 'gyz', 'gzz', 'alp'],
                ['kxx', 'kxy', 'kxz', 'kyy', 'kyz', 'kzz', 'rho'],
                ['alp', 'betax', 'betay', 'betaz'], ['M1', 'M2', 'M3'],
-               ['vel[0]', 'vel[1]', 'vel[2]', 'rho', 'eps']]
+               ['vel[0]', 'vel[1]', 'vel[2]', 'rho', 'eps'],
+               # names that are suffixes of other names in the same cache file
+               ['dtalp', 'alp'], ['dtbetax', 'dtbetay', 'dtbetaz', 'betax', 'betay', 'betaz'],
+               ['dtalp', 'alp', 'dtbetax', 'dtbetay', 'dtbetaz', 'betax', 'betay', 'betaz']]
 
 
 def product_spec(seed):
